@@ -26,3 +26,18 @@ def wordwrap(text, width=79):
                                 break_long_words=False,
                                 break_on_hyphens=False))
         for line in text.splitlines())
+
+
+def pystr(text, oneline=False):
+    """Escape text for pasting between the quotes of a Python string literal.
+
+    MIB texts cannot contain a double quote, so backslashes are the only
+    characters special inside a triple-quoted block; a one-line literal
+    must not contain raw line breaks either.
+    """
+    text = text.replace('\\', '\\\\')
+
+    if oneline:
+        text = text.replace('\r', '\\r').replace('\n', '\\n')
+
+    return text
